@@ -8,6 +8,17 @@
    (b) operators on generated (grammar, tree, path, replacement) cases, results compared exactly:
        `replace_multiple` (structure, read-only flags, origin tags), `_delete_repetitions`,
        `_insert_repetitions` (structure), `split_end`, `prefix`, parser `collapse`;
+   (c) `Grammar.prime()`: the distance_to_completion of EVERY node (inf included) after every real prime() call —
+       from the constructor state, from the primed state again, from mixed states, and on grammars with
+       unproductive symbols where the real loop is found beyond the iteration bound the model proves sufficient
+       exactly when the model never returns; `primedB` on every grammar used for tape replay;
+   (d) termination: every recorded `Grammar.fuzz` call on a generator-free grammar is replayed with the recursion
+       bound `G.fuelFor tape` of C01_expand_terminates_partial and must come back `ok` with the same tree; the
+       witness of C01_expand_no_budget_bound is run on the real code with scripted draws;
+   (e) evolution-level operators: every `SimpleSubtreeCrossover.crossover`, `SimpleMutation.mutate`,
+       `PopulationManager.fix_individual` call (inside evolution runs and direct calls on fuzzed trees) is replayed
+       on `crossover` / `mutate` / `fixIndividual` of Model/Evo.lean with the recorded draws: results, the
+       arguments of the inner `fuzz` call, number of fixes; and the inputs must be left unchanged;
 3. the property itself: EVERY tree the real code hands out or keeps in a population — plain fuzzing, evolution
    (every individual that reaches `Evaluator.evaluate_individual`, every emitted solution), generators,
    operator results built from derivations — is judged by the verified checker `validFast`
@@ -41,7 +52,11 @@ TRUSTED = [
     "replay and operator correspondence (generator-bounded)",
     "harness adapters harness/impl/grammar_io.py, fuzz_io.py (grammar/tree -> JSON, draw recording)",
     "CPython re.fullmatch as the regex oracle; exrex as the producer of regex instances",
-    "Grammar.prime(): distance_to_completion values are read from the real objects, not modelled",
+    "Grammar.prime(): modelled (Model/Prime.lean) and compared node by node with the real objects (inf included); "
+    "the distances budgeted expansion replays with are still the real ones, and `primedB` (= they are what the "
+    "model's prime() computes) is evaluated on every grammar",
+    "hand-written Model/Evo.lean (crossover, mutate, fix_individual and the suggestion classes); tied by operator-level "
+    "tape replay of every such call in the evolution runs and of direct calls on fuzzed trees",
     "Grammar.generate (generator value parsed under the symbol): its tree is taken from the run and judged by "
     "the checker, parser soundness itself is C04",
     "computed repetition bounds ({expr}) are constraints (C02): the checker uses the static part of the "
@@ -1360,6 +1375,7 @@ CORPUS_SPECS = [
 
 
 def stage_corpus(ctx: Ctx, rng) -> None:
+    corpus_spine(ctx)
     for spec in CORPUS_SPECS:
         try:
             with limit(8):
@@ -1383,6 +1399,38 @@ def stage_corpus(ctx: Ctx, rng) -> None:
     ctx.flush_expand()
     ctx.flush_bound()
     ctx.flush_valid()
+
+
+SPINE_SPEC = '<start> ::= <a>\n<a> ::= ("(" <a> ")")*\n'
+
+
+def corpus_spine(ctx: Ctx) -> None:
+    """the witness of C01_expand_no_budget_bound on the real Grammar.fuzz: with the scripted draws
+    (randint -> 2, inner randint -> 0) x k, randint -> 0 the Star along the spine is entered with the SAME budget
+    48 at every level (k + 1 levels at max_nodes = 50); the run is also tape-replayed like any other fuzz call"""
+    import fandango.language.grammar.nodes.repetition as R
+    with limit(8):
+        grammar, _ = gio.parse_spec(SPINE_SPEC)
+    for k in (3, 40):
+        draws = iter([2, 0] * k + [0])
+        budgets: list[int] = []
+        o_fuzz, o_randint = R.Repetition.fuzz, random.randint
+
+        def fuzz(self, parent, grammar, max_nodes=100, in_message=False, *a, _o=o_fuzz, **kw):
+            budgets.append(int(max_nodes))
+            return _o(self, parent, grammar, max_nodes, in_message, *a, **kw)
+
+        R.Repetition.fuzz = fuzz
+        random.randint = lambda a, b, _d=draws: next(_d)
+        try:
+            with fio.Recorder() as rec:
+                with limit(10):
+                    grammar.fuzz("<start>", 50)
+        finally:
+            R.Repetition.fuzz, random.randint = o_fuzz, o_randint
+        ctx.corr("spine:budget_constant_at_every_level", budgets[0::2] == [48] * (k + 1),
+                 {"spec": SPINE_SPEC, "k": k, "budgets": budgets[:12]})
+        record_calls(ctx, rec, SPINE_SPEC, "fuzz:spine", {})
 
 
 class _ReplayRun:
